@@ -87,12 +87,24 @@ macro_rules! axle_restriction {
             let limit = any_in(1e-3, 1e6);
             let r = VehicleRestriction::MaximumWeightPerAxle((Weight::new(limit), $lu));
             let valid = r.valid(&v);
-            kani::cover!(true, "reaches the assertions");
-            if $axles == 0 {
-                assert!(!valid, "a vehicle without axles never passes a per-axle limit");
-            } else {
-                check_band(valid, q, $vk / $lk / ($axles as f64), limit);
-            }
+            check_band(valid, q, $vk / $lk / ($axles as f64), limit);
+        }
+    };
+}
+
+macro_rules! axle0_restriction {
+    ($name:ident, $vu:expr, $lu:expr) => {
+        #[kani::proof]
+        pub fn $name() {
+            let mut v = any_vehicle(DistanceUnit::Meters, $vu);
+            let q = any_in(1e-3, 1e6);
+            v.total_weight = (Weight::new(q), $vu);
+            v.number_of_axles = 0;
+            let limit = any_in(1e-3, 1e6);
+            let r = VehicleRestriction::MaximumWeightPerAxle((Weight::new(limit), $lu));
+            let valid = r.valid(&v);
+            kani::cover!(true, "reaches the assertion");
+            assert!(!valid, "a vehicle without axles never passes a per-axle limit");
         }
     };
 }
